@@ -276,7 +276,7 @@ PROPS = {
         "assumptions": ["user-supplied getters, converters, String methods and hooks are side-effect-free and do not panic"],
     },
     "C03": {
-        "bridge": TABLES + DEC("Function", "Parse", "Notation"),
+        "bridge": TABLES + DEC("Function", "Parse", "Notation", "Conv"),
         "sweeps": [sweep_front("layout", 150, 6000, cats=["exit", "missing-func"]),
                    sweep_front("mixed", 100, 3000, cats=["exit", "missing-func"]),
                    sweep_front("hooks", 60, 2000, cats=["exit", "missing-func"]),
@@ -310,7 +310,7 @@ PROPS = {
         "assumptions": ["only the two documented spellings of the pure convergen constraint are claimed (compound constraints are outside the stated quantifier)"],
     },
     "C04": {
-        "bridge": RENDER + TABLES + NODES + DEC("Cast", "Util", "Default"),
+        "bridge": RENDER + TABLES + NODES + DEC("Cast", "Util", "Default", "Names"),
         "sweeps": [sweep_front("matching", 150, 4000, cats=["body", "slice", "stderr"]),
                    sweep_front("plain", 60, 3000, cats=["body", "slice", "stderr"]),
                    sweep_front("mixed", 60, 2000, cats=["body", "slice", "stderr"]),
@@ -343,7 +343,7 @@ PROPS = {
         "assumptions": ["go/types relations are oracle tables"],
     },
     "C06": {
-        "bridge": RENDER + TABLES + NODES + DEC("Match", "Resolve", "Default", "Option", "Function", "Notation"),
+        "bridge": RENDER + TABLES + NODES + DEC("Match", "Resolve", "Default", "Option", "Function", "Notation", "Conv"),
         "sweeps": [sweep_front("notations", 160, 4000, cats=["body", "slice", "stderr"]),
                    sweep_front("nesting", 80, 2000, cats=["body", "slice", "stderr"]),
                    sweep_front("casefold", 60, 2000, cats=["body", "slice", "stderr"]),
@@ -361,7 +361,7 @@ PROPS = {
         "assumptions": ["the order of the chain in the Go source is pinned by Bridge.precedence_eq"],
     },
     "C07": {
-        "bridge": RENDER + NODES + DEC("Cast", "Match", "Resolve", "Function"),
+        "bridge": RENDER + NODES + DEC("Cast", "Match", "Resolve", "Function", "Conv"),
         "sweeps": [sweep_front("errors", 150, 4000, cats=["errflow", "body", "hook", "exit"]),
                    sweep_front("hooks", 80, 2000, cats=["errflow", "hook", "exit"]), sweep_runtime(50, 1500)],
         "rule": FRONT_RULE % "errors",
@@ -472,7 +472,7 @@ PROPS = {
         "assumptions": [],
     },
     "C19": {
-        "bridge": DEC("Option", "Notation"),
+        "bridge": DEC("Option", "Notation", "Names"),
         "sweeps": [sweep_api, sweep_front("casefold", 100, 3000, cats=["body", "slice"])],
         "rule": "operation sequences on one PatternMatcher / IdentMatcher / CompareFieldName with alternating case rule; "
                 "random over pattern/path pools (mixed case, dots, non-ASCII, RE2 classes/escapes/anchors/alternation) plus the "
